@@ -201,10 +201,10 @@ PROPS = {
         "assumptions": ["everything reachable from v is present and numbers at most 14 vertices"],
     },
     "C19": {
-        "claim": "Decides ND1–ND3, which remove every source of run-to-run or size dependence: values produced by iterating a std hash container, and loop bodies driven by them, reach only order-insensitive uses (set/map insert, contains, len, reads, the user predicate) unless sorted first — never a graph mutator, next_id or an unsorted returned sequence/string; time/random/environment sources feed logging only and no pointer is turned into a number; the const parameter N never occurs as a value and capacity() flows only into Sodg::empty, a diverging bound check or logging. Does not decide equality of whole traces across configurations as such. SZ3-5 (save/load use bincode's default configuration on the whole image: no size limit that a larger capacity would exceed) are run as premises.",
+        "claim": "Decides ND1–ND3, which remove every source of run-to-run or size dependence: values produced by iterating a std hash container, and loop bodies driven by them, reach only order-insensitive uses (set/map insert, contains, len, reads, the user predicate) unless sorted first — never a graph mutator, next_id or an unsorted returned sequence/string; time/random/environment sources feed logging only and no pointer is turned into a number; the const parameter N never occurs as a value and capacity() flows only into Sodg::empty, a diverging bound check or logging. Does not decide equality of whole traces across configurations as such. SZ3-5 (save/load use bincode's default configuration on the whole image: no size limit that a larger capacity would exceed) and NX2 (next_id() tries every id up to the last slot, so whether it finds one depends on the capacity only through exhaustion) are run as premises.",
         "note": "Trusted: rustc front end + engine; micromap iteration is insertion-ordered and emap iteration ascending (deterministic), as read.",
         "technique": "MIR taint analysis (hash-iteration order, time, size parameters) with sort as sanitiser",
-        "rules": [("ND1", SL.nd1), ("ND2", SL.nd2), ("ND3", SL.nd3), ("SZ3-5", functools.partial(SZ.sz345, roundtrip=False))],
+        "rules": [("ND1", SL.nd1), ("ND2", SL.nd2), ("ND3", SL.nd3), ("SZ3-5", functools.partial(SZ.sz345, roundtrip=False)), ("NX2/NX3", NX.nx23)],
         "explanation": "ND1 hash-order taint (floor 3 sources), ND2 other nondeterminism sources, ND3 N / capacity only as bounds.",
         "trusted": [RUSTC, CONTAINERS],
         "assumptions": ["sequences that fit within the limits of both configurations"],
